@@ -20,9 +20,16 @@ func main() {
 		n = 4000
 	}
 	rng := wh.NewRng(a.Seed)
+	// first: a receive loop publishing to many other topics before it acks (blocking mode)
+	{
+		sc := gc.NestedFan(rng.Next(), 96)
+		out.Begin(sc.Describe())
+		gc.Emit(out, gc.Run(sc))
+	}
 	f := gc.Focus{Blocking: 500, Persistent: 300, Cancel: 250, Hold: 80, Nested: 150, Late: 300, CloseRace: 100, MaxSubs: 3, MaxPubs: 3, MaxMsgs: 4}
 	for i := 0; i < n; i++ {
 		sc := gc.Random(rng, f)
+		out.Begin(sc.Describe())
 		res := gc.Run(sc)
 		gc.Emit(out, res)
 		out.Count(fmt.Sprintf("cfg.buf%d.persist%v.block%v", sc.Buf, sc.Persistent, sc.Blocking))
